@@ -1339,3 +1339,145 @@ func scOneTermAhead(r *rng) *cluster {
 }
 
 func init() { scenarioFamilies[15] = scOneTermAhead }
+
+// ---------------------------------------------------------------- family 16: leadership transfers (C12, C17, C14)
+// Three or five voters with real timers.
+//
+//	round trip:  A transfers to B, B transfers back to A; afterwards A - a stable leader with no transfer pending -
+//	             must accept writes (C12: "has exactly one leader and accepts writes"; nothing of a finished transfer
+//	             may linger in the leader state).
+//	lost target: A transfers to B while B can hear (only) the TimeoutNow and can send nothing: the TimeoutNow is
+//	             acknowledged, B campaigns alone. The LeadershipTransfer future must resolve within a bounded time
+//	             while A keeps its quorum (C17); B, which cannot reach anybody, runs ONE election (the transfer's) and
+//	             must not raise its term again however long it stays cut off (C14); after the links are repaired the
+//	             cluster has a leader that accepts writes (C12).
+func scTransfers(r *rng) *cluster {
+	nv := 3
+	if r.chance(1, 3) {
+		nv = 5
+	}
+	o := timedOpts(nv, 0)
+	c := basicCluster(o)
+	note := func(f string, a ...interface{}) { c.h.add(hev{kind: "note", s: "transfer: " + fmt.Sprintf(f, a...)}) }
+	if !waitFor(3*time.Second, func() bool { return c.leader() != nil }) {
+		note("no first leader")
+		return c
+	}
+	A := c.leader()
+	pay := uint64(8800)
+	for i := 0; i < 2; i++ {
+		pay++
+		c.call(A.id, "apply", pay, 0).wait(300 * time.Millisecond)
+	}
+	var others []uint64
+	for _, id := range c.ids {
+		if id != A.id {
+			others = append(others, id)
+		}
+	}
+	B := others[r.intn(len(others))]
+	bound := 25*o.timeouts + 500*time.Millisecond
+	writes := func(id uint64) (ok bool, codes map[uint64]int) {
+		codes = map[uint64]int{}
+		ok = waitFor(bound, func() bool {
+			pay++
+			cc := c.call(id, "apply", pay, 0)
+			if !cc.wait(150 * time.Millisecond) {
+				return false
+			}
+			codes[errCode(cc.err)]++
+			return cc.err == nil
+		})
+		return ok, codes
+	}
+	if r.chance(1, 2) {
+		// ---- round trip
+		t1 := c.call(A.id, "transfer", 0, B)
+		if !t1.wait(bound) {
+			noteFinding(c, "C17", "leadership-transfer-future-never-resolved", "transfer %d -> %d (reachable target) did not resolve within %v", A.id, B, bound)
+			return c
+		}
+		if !waitFor(bound, func() bool { l := c.leader(); return l != nil && l.id == B }) {
+			note("first transfer did not make %d leader (err %v)", B, t1.err)
+			c.settle(300 * time.Millisecond)
+			return c
+		}
+		pay++
+		c.call(B, "apply", pay, 0).wait(300 * time.Millisecond)
+		t2 := c.call(B, "transfer", 0, A.id)
+		if !t2.wait(bound) {
+			noteFinding(c, "C17", "leadership-transfer-future-never-resolved", "transfer %d -> %d (reachable target) did not resolve within %v", B, A.id, bound)
+			return c
+		}
+		if !waitFor(bound, func() bool { l := c.leader(); return l != nil && l.id == A.id }) {
+			note("second transfer did not make %d leader again (err %v)", A.id, t2.err)
+			c.settle(300 * time.Millisecond)
+			return c
+		}
+		term := A.r.CurrentTerm()
+		ok, codes := writes(A.id)
+		if !ok && A.r.State() == raft.Leader && A.r.CurrentTerm() == term {
+			noteFinding(c, "C12", "stable-leader-rejects-writes-after-transfers", "server %d led term %d for %v after the transfers %d -> %d -> %d had finished and answered every Apply with an error (codes %v; 5 = ErrLeadershipTransferInProgress)",
+				A.id, term, bound, A.id, B, A.id, codes)
+		}
+		c.settle(300 * time.Millisecond)
+		return c
+	}
+	// ---- lost target
+	T := A.r.CurrentTerm()
+	for _, id := range c.ids {
+		if id != B {
+			c.net.setFilter(B, id, func(cmd interface{}) bool { return false })
+		}
+	}
+	for _, id := range c.ids {
+		if id != B {
+			c.net.setFilter(id, B, func(cmd interface{}) bool { _, ok := cmd.(*raft.TimeoutNowRequest); return ok })
+		}
+	}
+	// B's log must be complete for the TimeoutNow to be sent at once: it is (the applies above were waited for); the
+	// transfer's catch-up round needs one more AppendEntries if not - that one is dropped and the transfer fails early, which is fine
+	t0 := time.Now()
+	tr := c.call(A.id, "transfer", 0, B)
+	resolved := tr.wait(bound)
+	if !resolved && A.r.State() == raft.Leader && A.r.CurrentTerm() == T {
+		noteFinding(c, "C17", "leadership-transfer-future-never-resolved", "transfer %d -> %d: the target acknowledged TimeoutNow and was cut off; server %d still leads term %d and the future has not resolved after %v",
+			A.id, B, A.id, T, time.Since(t0))
+	}
+	// B stays cut off for a number of election timeouts
+	time.Sleep(12 * o.timeouts)
+	tb := c.nodes[B].r.CurrentTerm()
+	if tb > T+1 {
+		noteFinding(c, "C14", "isolated-transfer-target-inflates-its-term", "server %d was told to campaign (TimeoutNow) in term %d and could reach nobody: after %v its term is %d (one election, term %d, is the transfer's)",
+			B, T, time.Since(t0), tb, T+1)
+	}
+	if resolved && A.r.State() == raft.Leader && A.r.CurrentTerm() == T {
+		// the transfer is over on A: it accepts writes again
+		ok, codes := writes(A.id)
+		if !ok && A.r.State() == raft.Leader && A.r.CurrentTerm() == T {
+			noteFinding(c, "C12", "stable-leader-rejects-writes-after-transfers", "server %d still leads term %d after its transfer to %d ended (err %v) and answered every Apply with an error (codes %v)", A.id, T, B, tr.err, codes)
+		}
+	}
+	for _, id := range c.ids {
+		if id != B {
+			c.net.setFilter(B, id, nil)
+			c.net.setFilter(id, B, nil)
+		}
+	}
+	okw := waitFor(bound, func() bool {
+		l := c.leader()
+		if l == nil {
+			return false
+		}
+		pay++
+		cc := c.call(l.id, "apply", pay, 0)
+		return cc.wait(150*time.Millisecond) && cc.err == nil
+	})
+	if !okw {
+		noteFinding(c, "C12", "no-leader-accepts-writes-after-a-lost-transfer", "links repaired after the transfer %d -> %d: no leader accepted a write within %v", A.id, B, bound)
+	}
+	c.settle(300 * time.Millisecond)
+	return c
+}
+
+func init() { scenarioFamilies[16] = scTransfers }
